@@ -640,7 +640,7 @@ static void fresh_data(Rng& r, const string& file) {
       for (size_t i = 0; same && i < d.size(); i++) same = back[i] == d[i];
       rc = same ? 0 : 1;
     } catch (...) { rc = 2; }
-    _exit(rc);
+    VH_EXIT(rc);
   }
   int st = 0; waitpid(pid, &st, 0);
   string res = WIFSIGNALED(st) ? "CRASH:signal" + to_string(WTERMSIG(st)) : (WEXITSTATUS(st) == 0 ? "ok" : (WEXITSTATUS(st) == 1 ? "MISMATCH" : "ERROR"));
